@@ -64,6 +64,16 @@ class CaseRef:
         else:
             raise ValueError(fam)
 
+    def in_data_domain(self, R, Z, margin=0.0):
+        """True where (R, Z) lies inside the rectangle the psi array is given on. Outside it psi is
+        whatever the interpolant's extrapolation yields (hypnotoad clamps), so no reference exists;
+        guard cells of short legs can reach there."""
+        R, Z = numpy.asarray(R, dtype=float), numpy.asarray(Z, dtype=float)
+        if self.desc["family"] != "G":
+            return numpy.ones(numpy.broadcast(R, Z).shape, dtype=bool)
+        R1, Z1 = self.inp["R1D"], self.inp["Z1D"]
+        return (R >= R1[0] + margin) & (R <= R1[-1] - margin) & (Z >= Z1[0] + margin) & (Z <= Z1[-1] - margin)
+
     # profile functions as the *generating* cubic, clipped to the profile range (ext=3)
     def fpol(self, psi):
         if self.desc["family"] == "C":
